@@ -1,2 +1,29 @@
 import PMV.Sexp
-def main : IO Unit := IO.println "pmv"
+import PMV.Driver.Cli
+open PMV
+
+def dispatch (cmd : String) (args : List Sexp) : Option String :=
+  match cmd with
+  | "ping" => some "pong"
+  | "cli.run" => Driver.Cli.run args
+  | "cli.kw" => Driver.Cli.kw args
+  | "cli.split" => Driver.Cli.split args
+  | "cli.violations" => Driver.Cli.violations args
+  | _ => none
+
+def handle (line : String) : String :=
+  match Sexp.parse ("(" ++ line ++ ")") with
+  | some (.list (.atom cmd :: args)) =>
+    match dispatch cmd args with
+    | some r => "ok " ++ r
+    | none => "err bad-request " ++ cmd
+  | _ => "err parse"
+
+partial def loop (hin : IO.FS.Stream) (hout : IO.FS.Stream) : IO Unit := do
+  let line ← hin.getLine
+  if line.isEmpty then return ()
+  hout.putStrLn (handle line)
+  hout.flush
+  loop hin hout
+
+def main : IO Unit := do loop (← IO.getStdin) (← IO.getStdout)
